@@ -1,4 +1,5 @@
 import UtilModel.Props.C13
+import UtilModel.Lemmas.JsonScan
 /-!
 # Size: every marshalled form parses back to the same size (helper lemmas for C04)
 -/
@@ -32,10 +33,6 @@ theorem ndigitsF_lower (f n : Nat) (hn : 0 < n) : 10 ^ (ndigitsF f n - 1) ≤ n 
         have e : 1 + (k + 1) - 1 = k + 1 := by omega
         rw [e, Nat.pow_succ]; omega
 
-/-- shape of a canonical decimal literal: non-empty, digits only, no leading zero unless it is `0` -/
-def Canon (ds : Bytes) : Prop :=
-  ds = [48] ∨ ∃ c t, ds = c :: t ∧ isDigit c = true ∧ c ≠ 48 ∧ allDigits t = true
-
 theorem dec_canon (n : Nat) : Canon (dec n) := by
   by_cases h0 : n = 0
   · subst h0; left; decide
@@ -56,11 +53,6 @@ theorem dec_canon (n : Nat) : Canon (dec n) := by
       have hq2 : n / 10 ^ w < 10 := Nat.div_lt_of_lt_mul h2
       simp only [allDigits, List.all_cons, Bool.and_eq_true] at hd
       exact ⟨_, _, rfl, hd.1, by omega, hd.2⟩
-
-theorem Canon.allDigits {ds : Bytes} (h : Canon ds) : allDigits ds = true := by
-  rcases h with rfl | ⟨c, t, rfl, hc, _, ht⟩
-  · decide
-  · simp only [U.allDigits, List.all_cons, Bool.and_eq_true] at ht ⊢; exact ⟨hc, ht⟩
 
 theorem isDigit_iff (c : Nat) : isDigit c = true ↔ 48 ≤ c ∧ c ≤ 57 := by
   simp only [isDigit, Bool.and_eq_true, decide_eq_true_eq]
